@@ -144,7 +144,7 @@ size_t SubjectRouter::Node::notify(RoutingLevelView levelView, Args &&...args) {
     if (levelView.isLeaf()) {
         if (m_subject != nullptr) {
             auto &subject = *reinterpret_cast<Subject_t<Args...>*>(m_subject.get());
-            subject.notify(std::forward<Args>(args)...);
+            subject.notify(args...);
             return 1;
         }
     } else {
@@ -154,7 +154,7 @@ size_t SubjectRouter::Node::notify(RoutingLevelView levelView, Args &&...args) {
             size_t notifyCount = 0;
 
             for (auto & [name, node] : m_children)
-                notifyCount += node.notify(nextLevel, args...);
+                notifyCount += node.template notify<Args...>(nextLevel, std::forward<Args>(args)...);
 
             return notifyCount;
         } else {
